@@ -416,3 +416,43 @@ PROPS['C20'] = dict(
     trusted_base=['no model: raw transcripts of the implementation are compared with each other'],
     assumptions=COMMON_ASSUME + ['EGraph::dump() prints to stdout and is not captured; the snapshot hook is not used either (it sorts its lines)'],
 )
+
+# ---- additions of session 5 (seed rounds 8-11), appended to the exploration rules that go into the evidence files
+_EG_ADD = (' Session 5: 0-7 fresh slots are drawn before the e-graph is built (number = hash of the case line: the names of the class slots, '
+           'hence the iteration order of the hash sets inside the groups and the pending map, vary); in half of the cases another small e-graph '
+           '(redundancy, symmetry, lookup) lived on the thread before; an eighth of the histories spell every slot `$f<k>`; further streams: '
+           'migrate (a node that moved into another class loses a slot later; self-referential node losing its last link), latered2, fcapture '
+           '(`λx. x $f<N>` with N ahead of the fresh counter), symred4 (composite symmetry on four slots, then a redundant position), sumxor (two '
+           'invocations of one class over different slot sets with equal sum and xor of the slot numbers).')
+_ADD = {
+    'C01': _EG_ADD, 'C02': _EG_ADD, 'C08': _EG_ADD, 'C09': _EG_ADD + ' Every lookup probe is also looked up before every union (answers discarded).', 'C12': _EG_ADD, 'C13': _EG_ADD,
+    'C03': ' Session 5: pool rule 33 `let-intro` (a binder only the right side writes); a third of the runs spell the rules\' own slots '
+           '`$f<N>` (N ahead of the fresh counter, first rule highest) and parse them after the terms were inserted; nested `let` redexes with '
+           'ExtractionSubst; in half of the runs the same rule objects were applied to another e-graph (same terms, same substitution method) before.',
+    'C04': ' Session 5: a fifth of the plants run a second rule `q => 0` first (q a proper subpattern of the planted left side) whose unions '
+           'make the slots of the q instance redundant; half of the plants apply the rule objects to a second e-graph (built by the same steps) first.',
+    'C05': ' Session 5: multi-patterns also with numeric slot names `$0..`; a fourth multi-pattern round takes a subterm apart into one equation '
+           'per node with consistent slot names; a third of the derived single patterns spell their slots like the e-graph\'s own class slots.',
+    'C06': ' Session 5: extractors are built and dropped right before the last union of every history.',
+    'C07': ' Session 5: stream latered2 (a child class dies before its leader learns a redundancy), stream ground (closed terms); half of the '
+           'histories are preceded by another e-graph on the same thread with the same terms but other, separately labelled equations.',
+    'C10': ' Session 5: `egr` cases — the symmetries are asserted by unions and 1-2 argument positions are declared redundant (before, after or '
+           'interleaved); expected: orbit closure and the restricted group (Lean `egrRun`, brute force in the harness); 0-7 fresh slots first.',
+    'C11': ' Session 5: stream symred4 in a sixth of the cases (see the eg streams).',
+    'C14': ' Session 5: streams downgrade (a parent that uses a class directly and through a class whose datum depends on it; three unions) and tworoutes (one improvement reaches a class by two routes of different length); '
+           'fresh-slot noise and warm-up e-graph as in the eg suites.',
+    'C15': ' Session 5: a last hook that adds a class in every iteration (a third of the Runner cases); streams: `(k S S\')` with S\' the mirror '
+           'image of a commutative S (an iteration that only adds a symmetry) and `x op x` before `x op y` under commutativity; three runner-only '
+           'rules (k-same, k-same-h, k-comm); rule objects re-used from another e-graph in half of the runs.',
+    'C17': ' Session 5: see the suites list — the `mat` suite covers the clause about internally invented slots.',
+    'C18': ' Session 5: half of the valid round trips draw 1-12 fresh slots between printing and parsing back; a sixth of the cases are `parse2` '
+           'pairs: two texts parsed in ONE thread, the first usually broken at a dangling sigil after its first token, the model answering for '
+           'the second text alone.',
+    'C19': ' Session 5: op `nf <N>` (`Slot::named("f<N>")`, modelled as the counter bump of C17) in a quarter of the random cases, the `$f<N>` '
+           'slots then used as keys and values next to compose_fresh.',
+    'C20': ' Session 5: a third of the symbol-free histories are replayed from TEXT (every replica parses the inserted terms), all named slots '
+           'spelled `$f<N>`.',
+}
+for _k, _v in _ADD.items():
+    if _k in PROPS:
+        PROPS[_k]['rule'] = PROPS[_k]['rule'] + _v
